@@ -158,8 +158,13 @@ def slug(s):
     return s2 + '-' + hashlib.sha1(s.encode()).hexdigest()[:8]
 
 
+def replay_root():
+    ev = os.environ.get('VERIF_EVIDENCE_DIR')
+    return os.path.join(ev, 'replays') if ev else os.path.join(ROOT, 'replays')
+
+
 def write_replay(pid, fail):
-    d = os.path.join(ROOT, 'replays', pid)
+    d = os.path.join(replay_root(), pid)
     os.makedirs(d, exist_ok=True)
     p = os.path.join(d, slug(fail['site']) + '.json')
     rec = dict(property=pid, **fail)
@@ -197,8 +202,9 @@ def finish(pid, tier, seed, level, coverage, assumptions, fails, crashes, t0, kn
     coverage['known_findings_reproduced'] = sorted(seen_kf)
     ev = dict(property_id=pid, tier=tier, seed=seed, level=level, coverage=coverage,
               assumptions=assumptions, wall_s=round(time.time() - t0, 2), violations=len(viol_lines))
-    os.makedirs(os.path.join(ROOT, 'evidence'), exist_ok=True)
-    with open(os.path.join(ROOT, 'evidence', pid + '.json'), 'w') as f:
+    evdir = os.environ.get('VERIF_EVIDENCE_DIR') or os.path.join(ROOT, 'evidence')
+    os.makedirs(evdir, exist_ok=True)
+    with open(os.path.join(evdir, pid + '.json'), 'w') as f:
         json.dump(ev, f, indent=1, default=str)
     for line in kf_lines:
         print(line)
